@@ -325,6 +325,13 @@ def uninit_cases(rng, n):
         import struct
         kw = kwajfmt.kwaj(4, struct.pack("<H", len(z)) + z + b"\0\0", 1, ulen)
         sc = scenario.Scn().file("in0.kwj", kw); fmt_ops("kwaj", sc); out.append(Case("uninit:kwaj-mszip-early-match", "kwaj", sc))
+        # the same matches at the start of a SECOND frame, after a first frame much shorter than the 32K of history they reach into
+        first = [("L", 65 + (i + j) % 26) for j in range(1 + i % 9)]
+        z1 = b"CK" + (fixed_deflate(first) if i % 2 else bytes([1]) + struct.pack("<HH", len(first), len(first) ^ 0xFFFF) + bytes(t[1] for t in first))
+        cab = cabfmt.build_cab([(1, [(z1, len(first)), (z, ulen)])], [(b"leak2.bin", len(first) + ulen, 0, 0, 0x5A21, 0x6C43, 0x20)])
+        sc = scenario.Scn().file("in0.cab", cab); cab_ops(sc, 1, 4); out.append(Case("uninit:mszip-short-frame-then-far-match", "cab", sc))
+        kw = kwajfmt.kwaj(4, struct.pack("<H", len(z1)) + z1 + struct.pack("<H", len(z)) + z + b"\0\0", 1, len(first) + ulen)
+        sc = scenario.Scn().file("in0.kwj", kw); fmt_ops("kwaj", sc); out.append(Case("uninit:kwaj-mszip-short-frame-then-far-match", "kwaj", sc))
     for i in range(n):
         # LZSS: the very first tokens copy from ring positions at and beyond the initial write position (never written by the decoder)
         kind = i % 3; mode = [0, 2, 2][kind]; start = 4096 - (18 if mode == 2 else 16)
@@ -626,4 +633,26 @@ def targeted_cases(rng, n):
         out.append(Case("gen:chm-reset-faults", "chm", sc, True, exp, all_faults=True))
         sc = scenario.Scn().file("in0.chm", chm).op("chm_new").op("chm_fast_open", "h0", "in0.chm").op("chm_find", "h0", b"/c2.bin".hex(), "out0").op("chm_find", "h0", b"/c2.bin".hex(), "out1").op("chm_close", "h0")
         out.append(Case("gen:chm-reset-faults", "chm", sc, True, exp, all_faults=True))
+    # (19) after a good member of the compressed section, a member whose directory offset lies far beyond the section (7-byte ENCINT);
+    #      a long reset interval and no reset table, data after the LZX stream: the second call must be refused at once, not skipped towards
+    r19 = random.Random(19)
+    for i in range(2):
+        far = [1 << 45, (1 << 32) + 5000][i % 2]
+        chm, exp = chmfmt.build([(b"/index.html", b"<html>hi</html>")], [(b"/a.txt", 100)], r19, chunk_size=4096, wbits=16, reset_frames=0x7FFF, with_rtable=False, version=3,
+                                content_last=False, lzx_btypes=[3], extra_entries=[(b"/b.txt", 1, far, 50)])
+        names = sorted(exp.keys(), key=chmfmt.sort_key)
+        chm += bytes(6000)        # (bytes after the LZX stream: a decoder that runs on has input to nibble at, one bit per reset interval)
+        sc = scenario.Scn().file("in0.chm", chm).op("chm_new").op("chm_open", "h1", "in0.chm").op("chm_extract", "h1", names.index(b"/a.txt"), "out0").op("chm_extract", "h1", names.index(b"/b.txt"), "out1").op("chm_extract", "h1", names.index(b"/a.txt"), "out2").op("chm_close", "h1")
+        out.append(Case("hostile:chm-far-offset-after-extract", "chm", sc))
+    # (20) the last member of a folder declared longer than the folder's blocks inflate to (still inside blocks x 32K), under the four
+    #      FIXMSZIP x SALVAGE settings: never OK with fewer bytes than declared outside salvage mode
+    r20 = random.Random(20)
+    for i in range(max(4, n // 2)):
+        meth = [("mszip",), ("mszip",), ("qtm", 16), ("lzx", 16)][i // 4 % 4]
+        fo = cabfmt.Folder(meth, cabfmt.random_members(r20, 2, lens=[3000, 2000])); fo.prepare(r20)
+        extra = [1, 500, 20000, 7][i // 4 % 4]
+        files = [(m.name, m.length + (extra if k == 1 else 0), 3000 * k, 0, m.date, m.time, m.attribs) for k, m in enumerate(fo.members)]
+        cab = cabfmt.build_cab([(fo.comp_type(), fo.blocks)], files)
+        sc = scenario.Scn().file("in0.cab", cab).op("cab_new").op("cab_param", 1, i % 2).op("cab_param", 3, (i // 2) % 2).op("cab_open", "c0", "in0.cab").op("cab_extract_all", "c0", "out", 4).op("cab_close", "c0")
+        out.append(Case("hostile:cab-member-past-folder-data", "cab", sc))
     return out
